@@ -28,7 +28,7 @@ PROPS["C03"] = dict(
     + [H("c03::c03_" + n + "::underflow", bounds="one operand short", timeout=600, mem_gb=4) for n in _C03_A]
     + [H("c03::c03_addmod_reduced_operands", bounds="ADDMOD for all a, b < N (all N): 257-bit sum with one conditional subtraction; ruint div_rem stubbed to fail if reached",
          timeout=900, mem_gb=6, stubs_expected=["div_rem"]),
-       H("c03::c03_addmod_mulmod_zero_modulus", bounds="ADDMOD/MULMOD with N = 0, all a, b", timeout=900, mem_gb=6, stubs_expected=["div_rem"]),
+       H("c03::c03_addmod_zero_modulus", bounds="ADDMOD with N = 0, all a, b", timeout=900, mem_gb=6, stubs_expected=["div_rem"]),
        H("c03::c03_division_by_zero", bounds="DIV/MOD/SDIV/SMOD with divisor 0, all dividends", timeout=900, mem_gb=6, stubs_expected=["div_rem"]),
        H("c03::c03_shifts_not_activated_before_constantinople", bounds="SHL/SHR/SAR under ByzantiumSpec", mem_gb=4),
        H("c03::c03_twin_must_fail", expect_fail=True, bounds="vacuity twin", mem_gb=6)],
